@@ -6,3 +6,10 @@ pub mod std_shims;
 pub mod rc_glue;
 #[cfg(kani)]
 pub mod blockrng;
+#[cfg(kani)]
+pub mod seeding;
+#[cfg(kani)]
+pub mod serde_rt;
+#[cfg(kani)]
+pub mod debug;
+pub fn id<T>(x: T) -> T { x }
